@@ -775,7 +775,7 @@ impl<'p, C: SimCfg> World<'p, C> {
         if !o.lifecycle || !self.plan.nodes[i].drain {
             return;
         }
-        let exact_timing = o.lifecycle_timing && !self.plan.nodes[i].tick.use_wait && self.plan.cfg.clock_bump_us == 0;
+        let exact_timing = o.lifecycle_timing && !(self.plan.nodes[i].tick.use_wait && self.plan.cfg.max_prediction == 0) && self.plan.cfg.clock_bump_us == 0;
         let t = self.now;
         let notify = self.plan.nodes[i].notify_ms.unwrap_or(self.plan.cfg.notify_ms) * 1000;
         let timeout = self.plan.nodes[i].timeout_ms.unwrap_or(self.plan.cfg.timeout_ms) * 1000;
@@ -1275,6 +1275,7 @@ impl<'p, C: SimCfg> World<'p, C> {
         let node = &mut self.nodes[i];
         let Sess::Peer(s) = &mut node.sess else { unreachable!() };
         let g0 = node.game.g;
+        let lockstep_cfg = cfg.max_prediction == 0;
         let res = if use_wait {
             let core = self.core.clone();
             // the wait loop spins on the clock: the yield hook advances this node's virtual time by
@@ -1287,7 +1288,11 @@ impl<'p, C: SimCfg> World<'p, C> {
                 c.now_us = t;
                 c.deliver_due_to(i, t);
             })));
-            let r = guarded(|| s.advance_frame_with_wait());
+            let r = match self.plan.nodes[i].tick.wait_timeout_us {
+                None => guarded(|| s.advance_frame_with_wait()),
+                Some(d) => guarded(|| s.advance_frame_with_wait_timeout(std::time::Duration::from_micros(d))),
+            };
+            *self.probes.extra.entry(if lockstep_cfg { "wait_calls_lockstep" } else { "wait_calls_rollback" }).or_insert(0) += 1;
             ggrs::verif::set_on_yield(None);
             node.clock_floor = ggrs::verif::now_micros();
             r
